@@ -2,18 +2,19 @@
 # Regression over every seeded change: applies each seeded/<id>/patch.diff in its own scratch worktree of /repo HEAD, runs the demo on
 # both trees and the check of the property that catches it (meta.json: confirmed.caught_by, default: the seed's own property) with
 # VERIF_SEED=${1:-0}; prints one line per seed: CAUGHT (a VIOLATION with a failing input), REPORTED (only no-failing-input-found),
-# MISSED, or NOAPPLY.  usage: tools_allseeds.sh [seed] [parallel jobs]
+# MISSED, or NOAPPLY.  usage: tools_allseeds.sh [seed] [parallel jobs] [glob of seed ids, default C*]; each line is also appended to
+# build/allseeds.log as soon as the seed is done (an interrupted run keeps what it had).
 cd "$(dirname "$0")"
-SEED="${1:-0}"; JOBS="${2:-5}"
+SEED="${1:-0}"; JOBS="${2:-5}"; GLOB="${3:-C*}"; mkdir -p build
 one() {
   s="$1"; id="$(basename "$s")"
   prop="$(/venv/bin/python -c "import json;m=json.load(open('$s/meta.json'));print((m.get('confirmed') or {}).get('caught_by') or m.get('property') or '$id'[:3])" 2>/dev/null)"
   out="$(./tools_seed.sh "$s" "$prop" "$SEED" 2>&1)"
-  if echo "$out" | grep -q "PATCH DOES NOT APPLY"; then echo "$id $prop NOAPPLY"; return; fi
+  if echo "$out" | grep -q "PATCH DOES NOT APPLY"; then echo "$id $prop NOAPPLY" | tee -a build/allseeds.log; return; fi
   demo="$(echo "$out" | grep -c 'demo on changed tree: exit 1')/$(echo "$out" | grep -c 'demo on clean tree: exit 0')"
-  if echo "$out" | grep "VIOLATION" | grep -qv "no-failing-input-found"; then echo "$id $prop CAUGHT demo=$demo"
-  elif echo "$out" | grep -q "VIOLATION"; then echo "$id $prop REPORTED demo=$demo"
-  else echo "$id $prop MISSED demo=$demo"; fi
+  if echo "$out" | grep "VIOLATION" | grep -qv "no-failing-input-found"; then echo "$id $prop CAUGHT demo=$demo" | tee -a build/allseeds.log
+  elif echo "$out" | grep -q "VIOLATION"; then echo "$id $prop REPORTED demo=$demo" | tee -a build/allseeds.log
+  else echo "$id $prop MISSED demo=$demo" | tee -a build/allseeds.log; fi
 }
 export -f one; export SEED
-ls -d seeded/C* | xargs -P "$JOBS" -I{} bash -c 'one {}' | sort
+ls -d seeded/$GLOB | xargs -P "$JOBS" -I{} bash -c 'one {}' | sort
